@@ -367,6 +367,9 @@ func c20Dump() string {
 	return string(buf[:n])
 }
 
+// c20SlowConcurrent makes the concurrent consumer of the current run pause between receives.
+var c20SlowConcurrent bool
+
 func runUniprot(r *rand.Rand, data []byte, concurrent bool, capE, capErr int, dribble int) c20Result {
 	var res c20Result
 	entries := make(chan uniprot.Entry, capE)
@@ -376,6 +379,9 @@ func runUniprot(r *rand.Rand, data []byte, concurrent bool, capE, capErr int, dr
 		rd = &dribbleReader{data: data, r: rand.New(rand.NewSource(r.Int63())), k: dribble, eofWith: r.Intn(2) == 0}
 	}
 	done := make(chan string, 1)
+	// one concurrent consumer in eight attends to neither channel for 30 ms every few receives (a consumer doing
+	// work of its own): the parser waits for it, with its entry or its error in hand
+	c20SlowConcurrent = concurrent && r.Intn(8) == 0
 	go func() { done <- mon.Try(func() { uniprot.Parse(rd, entries, errs) }) }()
 	return superviseUniprot(entries, errs, done, concurrent, len(data), &res)
 }
@@ -470,7 +476,10 @@ func superviseUniprot(entries chan uniprot.Entry, errs chan error, done chan str
 	// concurrent consumer
 	eOpen, rOpen := true, true
 	ec, rc := (<-chan uniprot.Entry)(entries), (<-chan error)(errs)
-	for eOpen || rOpen {
+	for turn := 0; eOpen || rOpen; turn++ {
+		if c20SlowConcurrent && turn%3 == 1 && turn < 40 {
+			time.Sleep(30 * time.Millisecond)
+		}
 		select {
 		case e, ok := <-ec:
 			if !ok {
